@@ -37,12 +37,22 @@ func (e *Engine) mapKey(st *State, KT types.Type, k Val) *Term {
 		args = append(args, t)
 	}
 	r := tb.App(name, SInt, args...)
-	// injectivity through projections (only when no bound variables are involved)
-	if !r.Bound {
-		for i, a := range args {
-			e.assumeQuiet(st, tb.Eq(tb.App(name+"_proj"+string(rune('0'+i)), SInt, r), a))
+	// injectivity: quantified projection axiom, once per key constructor
+	ax, ok := e.initAxioms["key:"+name]
+	if !ok {
+		var bvs []*Term
+		for i := range args {
+			bvs = append(bvs, tb.BoundVar("k"+string(rune('a'+i)), SInt))
 		}
+		app := tb.App(name, SInt, bvs...)
+		var cs []*Term
+		for i := range args {
+			cs = append(cs, tb.Eq(tb.App(name+"_proj"+string(rune('0'+i)), SInt, app), bvs[i]))
+		}
+		ax = tb.Forall(bvs, tb.And(cs...), []*Term{app})
+		e.initAxioms["key:"+name] = ax
 	}
+	e.assumeQuiet(st, ax)
 	return r
 }
 
@@ -97,7 +107,7 @@ func (e *Engine) mapStore(st *State, mt *types.Map, m *Term, k, v Val) {
 	lh := e.H(st, lc, SArrI)
 	e.setH(st, lc, tb.Store(lh, m, tb.Add(tb.Select(lh, m), tb.Ite(was, tb.Int(0), tb.Int(1)))))
 	v = e.flatten(st, mt.Elem(), v)
-	e.escape(st, mt.Elem(), v)
+	v = e.escape(st, mt.Elem(), v)
 	for i, l := range Leaves(mt.Elem()) {
 		vc := e.mapValClass(mt, l)
 		h := e.H(st, vc, ArrOf(ArrOf(l.Sort)))
